@@ -120,6 +120,8 @@ def build_config(world, job):
                 cfg["opaques"][target] = world.resolve_target(f"{mn.replace('.', '/')}.py::{eff}", root=VERIF)
         cfg["forbidden"] |= set(getattr(m, "FORBIDDEN", []))
         cfg["safety_known"].update(getattr(m, "SAFETY_KNOWN", {}))
+        cfg.setdefault("opaque_classes", set()).update(getattr(m, "OPAQUE_CLASSES", []))
+        cfg.setdefault("opaque_class_modules", set()).update(getattr(m, "OPAQUE_CLASS_MODULES", []))
     inline = set(job["opts"].get("inline", []) or [])
     for t in inline:
         cfg["contracts"].pop(t, None)
@@ -127,6 +129,8 @@ def build_config(world, job):
         cfg["opaques"][t] = None if eff is None else world.resolve_target(f"{modname.replace('.', '/')}.py::{eff}", root=VERIF)
     if job["opts"].get("no_contracts"):
         cfg["contracts"] = {}
+    if job["opts"].get("permissive"):
+        cfg["permissive"] = True
     return cfg
 
 
